@@ -494,7 +494,9 @@ def to_evaluatable_python_function(expr: ExpressionT,
     else:
         unparse = ast.unparse
 
-    dep_mapper = CachedDependencyMapper(composite_leaves=True)
+    # the function's arguments are the free *variables*: do not stop at calls,
+    # subscripts or attribute look-ups (which have no name to pass by)
+    dep_mapper = CachedDependencyMapper(composite_leaves=False)
     deps = sorted({dep.name for dep in dep_mapper(expr)})
 
     ast_func = ast.FunctionDef(name=fn_name,
